@@ -5,7 +5,7 @@ import box, drv, rich, scen
 
 def allowed_paths(c, r):
     """targets (or -o), their reject and backup names, missing parents of created files, emptied parents of removed files"""
-    targets = set(c["T"]) | set(c["B"])
+    targets = set(c["targets"]) if "targets" in c else set(c["T"]) | set(c["B"])
     al = set(targets)
     opts = c["opts"]
     rej = b"all.rej" if b"-r" in opts else None
@@ -23,6 +23,46 @@ def allowed_paths(c, r):
     return al, dirs
 
 
+def special_cases(rng):
+    """hand-built families the random scenarios do not reach: -o (the file read is a bystander, whatever the patch does to it), and
+    the name decision by an Index: line under -pN with look-alike files at every other strip depth"""
+    import emit, gen
+    out = []
+    a = [(b"one", "L"), (b"two", "L"), (b"three", "L")]
+    b = [(b"one", "L"), (b"2", "L"), (b"three", "L")]
+    def case(tree, argv, text, targets, bystanders, how):
+        t = box.Tree(tree); t[drv.PATCHNAME] = ("f", text, 0o644)
+        return dict(tree=t, argv=argv + [b"-i", drv.PATCHNAME], text=text, A={}, B={}, T={}, ch={}, how=how, opts=argv, prod="emit-u",
+                    bystanders={q: t[q] for q in bystanders}, modes={}, ctx=3, targets=targets)
+    for newc, kind in ((b, "modify"), ([], "delete everything"), (a + [(b"four", "L")], "append")):
+        hs = gen.make_hunks(a, newc, 3)
+        for m in (0o644, 0o444, 0o600):
+            for o in (b"out.txt", b"newdir/sub/out.txt", b"src/x.txt.new"):
+                for extra in ([], [b"-b"], [b"-E"], [b"--dry-run"]):
+                    text = emit.unified_text(hs, b"src/x.txt", b"src/x.txt" if newc else b"/dev/null")
+                    tree = {b"src/x.txt": ("f", gen.render(a, "keep"), m), b"x.txt": ("f", b"look-alike\n", 0o644), b"src/x.txt.orig": ("f", b"old backup\n", 0o644)}
+                    out.append(case(tree, [b"-p0", b"-o", o] + extra, text, {o}, [b"src/x.txt", b"x.txt", b"src/x.txt.orig"], f"-o {kind}"))
+    hs = gen.make_hunks(a, b, 3)
+    for strip in (0, 1, 2, 3):
+        idx = b"top/src/lib/x.txt"
+        comps = idx.split(b"/")
+        if strip >= len(comps):
+            continue
+        target = b"/".join(comps[strip:])
+        body = emit.unified_text(hs, b"nowhere/old/was/gone.txt", b"nowhere/new/was/gone.txt")
+        text = b"Index: " + idx + b"\n" + b"=" * 67 + b"\n" + body
+        tree = {}
+        others = []
+        for k in range(len(comps)):
+            q = b"/".join(comps[k:])
+            tree[q] = ("f", gen.render(a, "keep"), 0o644)
+            if q != target:
+                others.append(q)
+        for extra in ([], [b"-b"]):
+            out.append(case(tree, [b"-p%d" % strip] + extra, text, {target}, others, f"Index -p{strip}"))
+    return out
+
+
 def run(R):
     if not R.build():
         return
@@ -36,6 +76,7 @@ def run(R):
             cs.append(rich.make(rng, P, quick))
     finally:
         P.close()
+    cs = special_cases(rng) + cs
     res = drv.run_many([dict(cut=R.cut, tree=c["tree"], argv=c["argv"]) for c in cs])
     dist = {"bystanders checked": 0, "paths changed": 0}
     for c, r in zip(cs, res):
@@ -57,9 +98,13 @@ def run(R):
                     R.oracle_fail(f"bystander file {p!r} was touched (bytes, mode or mtime)", data); break
             if r.tmp_left:
                 R.oracle_fail(f"temporary file left in the temp directory: {r.tmp_left[:2]}", data)
+            if "targets" in c and b"--dry-run" not in c["opts"] and not c["how"].endswith("delete everything") and r.exit == 0:
+                t = next(iter(c["targets"]))
+                if t not in r.after or (t in r.before and r.after[t][1] == r.before[t][1]):
+                    R.oracle_fail(f"{c['how']}: the intended target {t!r} was not written", data)
     R.dist["C16"] = dist
     import ties
-    sub = cs[:150 if quick else 2000]
+    sub = cs[:260 if quick else 2000]
     ties.t8(R, "T8-driver", sub)
     outs = ties.t9(R, "T9-trace", sub[:80 if quick else 800])
     for c, r, m, ops in outs:
